@@ -166,7 +166,9 @@ def make_overlay(name, seam=False, race=False, extra_replace=None, shim=True):
     os.makedirs(gen, exist_ok=True)
     repl = {}
     # virtual harness packages
-    hroot = os.path.join(VERIF, "harness")
+    # VERIF_HARNESS: a snapshot of /verif/harness, so that a long evaluation run (mutants, seeded changes) is not
+    # disturbed by edits made to the harness sources meanwhile
+    hroot = os.environ.get("VERIF_HARNESS") or os.path.join(VERIF, "harness")
     for dirpath, _dirs, files in os.walk(hroot):
         rel = os.path.relpath(dirpath, hroot)
         for fn in files:
